@@ -541,6 +541,16 @@ GARBAGE_SIGS = [b"\x30", b"\x30\x01", b"\x30\x80\x01", b"\x30\x81\x01", b"\x30\x
                 b"\x30\x06\x03\x01\x01\x02\x01\x01\x01", b"\x30\x06\x02\x01\x01\x03\x01\x01\x01", b"\x30\x06\x02\x02\x01\x02\x01\x01\x01",
                 b"\x30\x45" + b"\x02\x21\x00" + b"\xff" * 32 + b"\x02\x20" + b"\x7f" * 32 + b"\x01",
                 b"\x30\x09\x02\x01\x01\x02\x01\x01\x01", b"\xff" * 9, b"\x30" * 73, b"\x30" * 74, b"\x30\x06\x02\x01\x01\x02\x01\x01"]
+def _rs_sig(r, s_, ht=1):
+    body = der_int(r) + der_int(s_)
+    return b"\x30" + bytes([len(body)]) + body + bytes([ht])
+
+
+# strict-DER blobs whose S sits on the LOW_S boundaries (group order n, and the field prime p for contrast)
+BOUNDARY_S_SIGS = [_rs_sig(1, v) for v in (1, N_ORDER // 2 - 1, N_ORDER // 2, N_ORDER // 2 + 1, N_ORDER // 2 + 2, N_ORDER - 1, N_ORDER,
+                                            G.p() // 2, G.p() // 2 + 1, G.p() - 1, (1 << 255) - 1, 1 << 255, (1 << 256) - 1)] + \
+                  [_rs_sig(v, 1) for v in (N_ORDER - 1, N_ORDER, G.p(), (1 << 256) - 1)]
+GARBAGE_SIGS = GARBAGE_SIGS + BOUNDARY_S_SIGS
 SIG_VARIANTS = ["ok"] * 8 + ["highs", "wrongkey", "wronghash", "padded", "negative", "trailing", "longform", "outer_trailing",
                              "badlen", "r0", "s0", "rbig", "truncated", "nohashtype", "empty", "empty"]
 HASHTYPES = [1] * 8 + [2, 3, 0x81, 0x82, 0x83, 0, 4, 0x80, 0x84, 0x41, 0xff, 0x21]
@@ -804,6 +814,10 @@ def limit_cases(rng, tier):
                 yield c_eval(fl, "B", CTX0, push_as(bytes([v]), how), tag="minimal-push")
     for n in (65535, 65536):
         yield c_eval(F.VERIFY_MINIMALDATA, "B", CTX0, o("0", "IF") + push_as(b"\x01" * n, 4)[:9990], tag="pushsize-dead")
+    for raw in ("4effffffff00", "4e00000080", "4e0000008001", "4dffff", "4dffff01", "4cff", "4c", "4d", "4d01", "4e", "4e010000", "4b00"):
+        for pre in (b"", o("0", "IF"), o("1", "IF")):
+            for fl in (0, F.VERIFY_MINIMALDATA):
+                yield c_eval(fl, "B", CTX0, pre + bytes.fromhex(raw), tag="push-truncated")
     # initial stack items longer than 520 bytes are not checked by the VM
     yield c_eval(0, "B", CTX0, o("SIZE"), [b"\x01" * 521], tag="initial-item")
     yield c_eval(0, "B", CTX0, o("DUP", "SHA256", "SWAP", "VERIFY"), [b"\x01" * 600], tag="initial-item")
@@ -1027,6 +1041,50 @@ def verify_cases(rng, tier):
         fl = fc.next() if q < 0.5 else (std if q < 0.7 else (std ^ rng.choice(ALL_FLAGS)) if q < 0.85 else
                                         (F.VERIFY_P2SH | F.VERIFY_WITNESS | rng.getrandbits(16)))
         yield c_verify(fl, cb, ssig, spk, wit, tag="spend")
+    # directed: clean spends of every kind, each under every malleation, standard flags and one cycled flag set
+    kinds_seen = {}
+    tries = 0
+    want = 3 if tier == "quick" else 40
+    GEN["clean"] = True
+    bases = []
+    while tries < 4000 and len(bases) < 19 * want:
+        tries += 1
+        st0 = rng.getstate()
+        base = spend_case(rng)
+        if impl_verify(std, *base) != "N":
+            continue
+        k = (len(base[1]) > 0, base[2][:1], len(base[3]) > 0, len(base[2]))
+        if kinds_seen.get(k, 0) >= want:
+            continue
+        kinds_seen[k] = kinds_seen.get(k, 0) + 1
+        bases.append(base)
+    GEN["clean"] = False
+    for base in bases:
+        cb, ssig, spk, wit = base
+        last_push = None
+        try:
+            pc = 0
+            while pc < len(ssig):
+                opc, d, npc, ok = S.get_opcode(ssig, pc)
+                last_push = (pc, d)
+                pc = npc
+        except Exception:
+            pass
+        variants = [base,
+                    (cb, o("NOP") + ssig, spk, wit), (cb, ssig + o("NOP"), spk, wit), (cb, o("1") + ssig, spk, wit),
+                    (cb, o("1", "DROP") + ssig, spk, wit), (cb, push(b"") + ssig, spk, wit), (cb, b"", spk, wit),
+                    (cb, ssig, spk, list(wit) + [b""]), (cb, ssig, spk, [b"\x01"] + list(wit)), (cb, ssig, spk, []),
+                    (cb, ssig, spk, list(wit)[:-1]), (cb, ssig, spk + o("NOP"), wit), (cb, ssig, spk + o("1"), wit),
+                    (cb, ssig, spk, list(wit)[:-1] + [list(wit)[-1] + b"\x61"] if wit else []),
+                    (cb, ssig, spk, [b"\x00" * 521] + list(wit))]
+        if last_push and last_push[1] is not None:
+            for how in (2, 3, 4):
+                variants.append((cb, ssig[:last_push[0]] + push_as(bytes(last_push[1]), how), spk, wit))
+        for v in variants:
+            yield c_verify(std, *v, tag="spend-directed")
+            yield c_verify(fc.next(), *v, tag="spend-directed")
+            yield c_verify(std & ~rng.choice([F.VERIFY_P2SH, F.VERIFY_WITNESS, F.VERIFY_CLEANSTACK, F.VERIFY_MINIMALDATA]), *v,
+                           tag="spend-directed")
     # fixed regression shapes of the repaired defects (KNOWN_FINDINGS.txt `fixed:` lines)
     pw = F.VERIFY_P2SH | F.VERIFY_WITNESS
     prog32 = o("1") + push(b"\x05" * 32)
@@ -1069,10 +1127,44 @@ def step_cases(rng, tier):
                      rng.choice([0, 0, pc]), tag="step")
 
 
+def fuzz_cases(rng, tier):
+    """crash hunt: raw random bytes as scripts (weighted towards signature / stack opcodes) on stacks of blobs that
+    look like numbers, keys and signatures; random 16-bit flag sets; eval and verify level"""
+    n = 1500 if tier == "quick" else 120000
+    key = sec(5)
+    sc0 = push(key) + o("CHECKSIG")
+    sigs = [make_sig(CTX0, "B", sc0, 5), make_sig(CTX0, "B", sc0, 5, 1, "highs"), make_sig(CTX0, "B", sc0, 5, 1, "padded")] + GARBAGE_SIGS
+    keys = [key, sec(5, "u"), sec(5, "h")] + WEIRD_KEYS
+    hot = [0xac, 0xad, 0xae, 0xaf, 0xab, 0x63, 0x64, 0x67, 0x68, 0x76, 0x7c, 0x75, 0x51, 0x00, 0x52, 0x69, 0x87, 0x91, 0xb1, 0xb2,
+           0x6b, 0x6c, 0x79, 0x7a, 0x82, 0xa9, 0x93]
+    for i in range(n):
+        ln = rng.choice([1, 2, 3, 4, 6, 8, 12, 20, 40])
+        b = bytearray()
+        while len(b) < ln:
+            r = rng.random()
+            if r < 0.45:
+                b.append(rng.choice(hot))
+            elif r < 0.6:
+                b += push(rng.choice(sigs + keys + NUMS))
+            else:
+                b.append(rng.getrandbits(8))
+        st = [rng.choice(sigs + keys + NUMS + BLOBS[:9]) for _ in range(rng.choice([0, 1, 2, 3, 4, 6]))]
+        fl = rng.getrandbits(16)
+        if rng.random() < 0.35:      # make a signature check likely
+            st.append(rng.choice(sigs))
+            b = bytearray(push(rng.choice(keys))) + (bytearray([rng.choice([0xac, 0xac, 0xad])]) if rng.random() < 0.6 else bytearray()) + b
+        if i % 3:
+            yield c_eval(fl, rng.choice("BW"), rng.choice(CTXS), bytes(b), st, tag="fuzz")
+        else:
+            cut = rng.randint(0, len(b))
+            yield c_verify(fl, rng.choice(CTXS), b"".join(push(x) for x in st) + bytes(b[:cut]), bytes(b[cut:]),
+                           st[:rng.choice([0, 0, 1, 2])], tag="fuzz")
+
+
 def model_cases(rng, tier):
     """the C03 model-vs-implementation correspondence cases (driver C03model)"""
     for g in (handler_cases, locktime_cases, exhaustive_opcode_cases, cond_cases, limit_cases, step_cases,
-              sig_eval_cases, grammar_cases, verify_cases):
+              sig_eval_cases, grammar_cases, verify_cases, fuzz_cases):
         for c in g(rng, tier):
             yield c
 
